@@ -306,6 +306,21 @@ def _check_package(deb, case, what, labels):
     cfiles += sorted(scripts.items())
     _check_part_files(deb.control, what + " control part", cfiles, [], labels)
     _check_part_files(deb.data, what + " data part", files, A.parent_dirs([n for n, _ in files]), labels)
+    # interleaved access: both parts live in one archive (and, opened from a file object, share
+    # it), so what one part returns must not depend on what the other was asked in between
+    if files:
+        first, last = files[0], files[-1]
+        for rnd in range(2):
+            for n, d in (first, last):
+                got = deb.data.get_content(n)
+                if got != d:
+                    raise Violation("interleaved-access", "%s: data file %r read after the control part "
+                                    "was consulted gave %s, packed %s" % (what, n, short(got, 60), short(d, 60)))
+                if deb.control.get_content("control") != control_text(ctrl):
+                    raise Violation("interleaved-access", "%s: control file read after data file %r differs" % (what, n))
+        labels.add("interleaved-parts")
+        if max(len(d) for _, d in files) > 8192:
+            labels.add("data-file-larger-than-a-read-chunk")
     text = deb.control.get_content("control", encoding="utf-8")
     if text != control_text(ctrl).decode("utf-8"):
         raise Violation("file-content", "%s: get_content('control', encoding='utf-8') = %s" % (what, short(text, 120)))
@@ -460,8 +475,39 @@ def check_members(case):
         op.cleanup()
 
 
+def noise(seed, size):
+    """``size`` incompressible bytes (so that a compressed part is larger than one read chunk of
+    the decompressor), as a latin-1 string; a pure function of (seed, size)."""
+    out, i = [], 0
+    while sum(len(b) for b in out) < size:
+        out.append(hashlib.sha256(b"%d/%d" % (seed, i)).digest())
+        i += 1
+    return b"".join(out)[:size].decode("latin-1")
+
+
+def expand(case):
+    """File data may be written as ["noise", seed, size] in a case; expand it to the bytes."""
+    try:
+        if not any(isinstance(f[1], list) for f in case["files"]):
+            return case
+        files = []
+        for n, d in case["files"]:
+            if isinstance(d, list):
+                if not (len(d) == 3 and d[0] == "noise" and 0 < int(d[2]) <= 400000):
+                    return None
+                d = noise(int(d[1]), int(d[2]))
+            files.append([n, d])
+        return dict(case, files=files)
+    except (KeyError, TypeError, ValueError, IndexError):
+        return None
+
+
 def check(case):
     kind = case.get("kind") if isinstance(case, dict) else None
+    if kind == "package":
+        case = expand(case)
+        if case is None:
+            return (False, ("invalid-case-skipped",))
     if kind == "package" and valid_package(case):
         return check_package(case)
     if kind == "members" and valid_members(case):
@@ -567,7 +613,10 @@ def _prune(files):
     return out
 
 
-file_st = st.tuples(filename_st, content_st.map(latin))
+file_st = st.one_of(st.tuples(filename_st, content_st.map(latin)), st.tuples(filename_st, content_st.map(latin)),
+                    st.tuples(filename_st, content_st.map(latin)), st.tuples(filename_st, content_st.map(latin)),
+                    st.tuples(filename_st, st.tuples(st.just("noise"), st.integers(0, 9),
+                                                     st.sampled_from([9000, 12000, 20000]))))
 files_st = st.one_of(st.lists(file_st, max_size=5), st.lists(file_st, min_size=2, max_size=5),
                      st.lists(file_st, min_size=1, max_size=3)).map(_prune)
 scripts_st = st.lists(st.tuples(st.booleans(), content_st.map(latin)), min_size=5, max_size=5).map(
@@ -631,16 +680,34 @@ def externals_phase(shard, nshards, seed, deadline, rec):
     rec.note("external:dpkg-deb:" + ("present" if A.DPKG_DEB_BIN else "missing"))
 
 
+def enum_big_files(sizes):
+    """Packages whose compressed data part is larger than the decompressors' read chunks (8 KiB for
+    xz/lzma, 128 KiB for gzip in this interpreter): every data compression x both open modes."""
+    def gen():
+        for size in sizes:
+            for dc in COMPS:
+                for mode in ("fileobj", "filename"):
+                    for cc in ("gz", ""):
+                        yield {"kind": "package", "control": _FIXED_CTRL, "scripts": {"postinst": "#!/bin/sh\n"},
+                               "files": [["a/first.bin", ["noise", 1, size]], ["a/middle", "x\n"],
+                                         ["z/last.bin", ["noise", 2, size]]],
+                               "tarfmt": "gnu", "variants": [[cc, dc]], "binary_pos": 0, "extra": False,
+                               "ar_style": "gnu", "open": mode}
+    return gen
+
+
 def sources(tier):
     if tier == "quick":
         return [Enum("member-sets", enum_member_sets, "every subset of debian-binary + 5 control + 5 data candidates"),
                 Enum("compression-matrix", enum_matrix(["fileobj"]), "fixed package x 5x5 x 3 tar formats x 3 positions"),
+                Enum("big-files", enum_big_files([12000, 140000]), "2 sizes x 5 data compressions x 2 open modes x 2 control compressions"),
                 Hyp("packages", package_st(5), 60, shards=8),
                 Hyp("member-sets-random", members_st, 300, shards=1),
                 Hyp("dpkg-deb", dpkg_package_st(), 12, shards=1),
                 Custom("externals", externals_phase, shards=1)]
     return [Enum("member-sets", enum_member_sets, "every subset of debian-binary + 5 control + 5 data candidates"),
             Enum("compression-matrix", enum_matrix(["fileobj", "filename"]), "fixed package x 5x5 x 3 tar formats x 3 positions x 2 open modes"),
+            Enum("big-files", enum_big_files([9000, 12000, 70000, 140000, 300000]), "5 sizes x 5 data compressions x 2 open modes x 2 control compressions"),
             Hyp("packages", package_st(25), 200, shards=16),
             Hyp("member-sets-random", members_st, 2000, shards=2),
             Hyp("dpkg-deb", dpkg_package_st(), 30, shards=8),
